@@ -86,9 +86,11 @@ Definition lfilter (p : Z -> bool) (s : lseq) : lseq :=
 
 (* the closed sets of element functions / predicates used in histories *)
 Inductive efun := FAdd (c : Z) | FMul (c : Z).
-Inductive epred := PEven | PGt (c : Z).
+(* PTruthy: filter(None) / filter(bool): keep the truthy items (for integers: the non-zero ones) *)
+Inductive epred := PEven | PGt (c : Z) | PTruthy.
 Definition ef (f : efun) (x : Z) : Z := match f with FAdd c => x + c | FMul c => x * c end.
-Definition ep (p : epred) (x : Z) : bool := match p with PEven => Z.even x | PGt c => c <? x end.
+Definition ep (p : epred) (x : Z) : bool :=
+  match p with PEven => Z.even x | PGt c => c <? x | PTruthy => negb (x =? 0) end.
 
 (* a source: Stream(list) or Stream(a, b, ...) (periodic; one value: repeat) *)
 Inductive pool := PFin (l : list Z) | PCyc (l : list Z).
